@@ -37,6 +37,8 @@ class C20(F.Check):
         "kernels are re-used from the other checks (seeded subset) and lowered in five configurations: c++14 multi-header (baseline), c++17, c++20, single-file header (all units/constants, with I/O) "
         "and single-file --noio, the single-file builds with NO other Au path on the include line; thorough adds a seeded random subset of units containing those the kernels use, and a double inclusion",
         "each (kernel, configuration) pair is proved equivalent to the baseline for ALL inputs (same result bits, same trap condition); identical encodings fold before the solver",
+        "compiler parity is additionally observed on closed facts (magnitude values incl. roots and pi in float/double/long double, a label size, policy booleans): the constant in "
+        "clang's IR must equal the value the g++ build returns; this needs no free variable and no sampling",
         "'every public header compiles on its own' and 'the single-file header can be included twice / with no other Au file' are compiler verdicts: observed as lowering-stage facts on the current tree "
         "(a failure is reported as a lowering-stage VIOLATION), not solver results; *_fwd.hh/definition agreement and accept/reject parity across compilers are outside",
     ]
@@ -149,6 +151,26 @@ class C20(F.Check):
                         ks.append(k)
                         pair.append(k)
                     self.own_pairs.append((pair[0], pair[1], vid))
+        # compiler parity on closed facts: the constant clang bakes into the IR must equal what the g++ build of the same line returns
+        # (no free variable: a finite fact, evaluated by both compilers' constant evaluators)
+        self.parity = []
+        mags = ["root<2>(mag<2>())", "root<2>(mag<1000>())", "root<3>(mag<2>())", "root<5>(mag<7>())", "root<2>(mag<13>())", "Magnitude<Pi>{}",
+                "pow<2>(Magnitude<Pi>{})", "root<2>(Magnitude<Pi>{})", "Magnitude<Pi>{} / mag<180>()", "mag<1>() / mag<3>()",
+                "pow<-30>(mag<10>())", "pow<30>(mag<10>())", "root<2>(mag<3>()) / mag<7>()", "mag<45359237>() / pow<8>(mag<10>())"]
+        for mi, mg in enumerate(mags):
+            for t in ("float", "double", "long double"):
+                k = F.Kernel("c20_gccparity_%d_%s" % (mi, t.replace(" ", "")), t, [], "return get_value<%s>(%s);" % (t, mg),
+                             key={"magnitude": mg, "T": t}, family="gcc_clang_parity")
+                k.prelude = ""
+                ks.append(k)
+                self.parity.append(k)
+        for i, body in enumerate(["return sizeof(unit_label(Meters{} * mag<1000>() / root<2>(Seconds{})));",
+                                  "return (uint64_t)representable_in<float>(pow<39>(mag<10>())) * 2 + (uint64_t)representable_in<double>(pow<308>(mag<10>()));",
+                                  "return (uint64_t)std::is_convertible<Quantity<Kilo<Meters>, int32_t>, Quantity<Meters, int32_t>>::value;"]):
+            k = F.Kernel("c20_gccparity_misc_%d" % i, "uint64_t", [], body, key={"expr": body}, family="gcc_clang_parity")
+            k.prelude = ""
+            ks.append(k)
+            self.parity.append(k)
         # every public header compiles on its own (lowering-stage facts)
         self.alone = []
         hdrs = []
@@ -228,6 +250,27 @@ class C20(F.Check):
                             routes=F.FP_ROUTES if fp else F.CMP_ROUTES,
                             note="relational comparison of std::pair/tuple holding quantities equals the same comparison on the raw rep, in this configuration "
                                  "(pre-C++20 the library uses the element's <, from C++20 its <=>)"))
+        for k in self.parity:
+            if K[k.name].kernel.dropped:
+                self.notes.append("parity kernel dropped: %s" % K[k.name].kernel.dropped[:120])
+                continue
+
+            def pfn(K, name=k.name, kern=k):
+                h = K[name]
+                if isinstance(h, F.NativeHandle):
+                    h()
+                    c = h.calls[-1]
+                    return T.TRUE, T.const_bool(c.get("value_clang_san") == c.get("value_gxx"))
+                e = h()
+                if not T.is_const(e.ret):
+                    raise F.irparse.IRUnsupported("parity kernel did not fold to a constant")
+                nh = self.native_handle(name)
+                if nh.rg is None:
+                    raise F.irparse.IRUnsupported("no g++ build for this kernel")
+                st, v = nh.rg.call(kern, [])
+                return T.TRUE, T.const_bool(st == "ok" and v == e.ret.attr)
+            obs.append(F.Ob("gcc_clang_parity:" + k.name, [], pfn, kind="closed", key=k.key, kernels=[k.name],
+                            note="closed fact: value baked into clang's IR equals the value returned by the g++ -O2 build of the same line"))
         for k in self.alone:
             if K[k.name].kernel.dropped:
                 ob = F.Ob("header_alone:%s" % k.key["header"], [], None, kind="closed",
